@@ -130,3 +130,52 @@ def reach(edges, a):
 
 def on_cycle(edges):
     return {n for n in edges if n in reach(edges, n)}
+
+
+def dangling(cfg):
+    """(referrer, kind, name) for every reference to an undeclared parameter / service"""
+    params = set((cfg.get("parameters") or {}))
+    services = set((cfg.get("services") or {}))
+    out = []
+    for n, v in (cfg.get("parameters") or {}).items():
+        if isinstance(v, str):
+            for r in param_refs(v):
+                if r not in params:
+                    out.append(('"%' + n + '%"', "param", r))
+    for n, sv in (cfg.get("services") or {}).items():
+        if sv.get("todo"):
+            continue
+        for a in service_args(sv):
+            c = classify_arg(a)
+            if c[0] == "pattern":
+                for r in c[1]:
+                    if r not in params:
+                        out.append(('"@' + n + '"', "param", r))
+            elif c[0] == "service" and c[1] not in services:
+                out.append(('"' + n + '"', "service", c[1]))
+    for j, d in enumerate(cfg.get("decorators") or []):
+        for a in d.get("arguments") or []:
+            c = classify_arg(a)
+            if c[0] == "pattern":
+                for r in c[1]:
+                    if r not in params:
+                        out.append(('decorator(#%d, "%s")' % (j, d["tag"]), "param", r))
+            elif c[0] == "service" and c[1] not in services:
+                out.append(('decorator(#%d, "%s")' % (j, d["tag"]), "service", c[1]))
+    return out
+
+
+def output_violations(cfg):
+    """the violation classes of the output-validation stage as the statements of C05/C06/C07 define them, computed from the
+    configuration alone: (scope pairs, cyclic?, dangling parameter refs, dangling service refs)"""
+    d = Deps(cfg)
+    edges = d.svc_edges()
+    pairs = set()
+    for a, sv in d.services.items():
+        if (sv or {}).get("scope") == "shared":
+            for b in reach(edges, a):
+                if b != a and (d.services.get(b) or {}).get("scope") == "contextual":
+                    pairs.add((a, b))
+    cyclic = bool(on_cycle(edges) or on_cycle(d.param_edges()))
+    dg = dangling(cfg)
+    return pairs, cyclic, [x for x in dg if x[1] == "param"], [x for x in dg if x[1] == "service"]
